@@ -165,6 +165,9 @@ func cmdCheck(args []string) int {
 			cfg.Harness = h.Func
 			cfg.Verbose = *verbose
 			cfg.Interleave = h.Interleave
+			if h.Interleave {
+				cfg.MaxDecisions = 3000
+			}
 			cfg.Seed = seed
 			if *workers > 0 {
 				cfg.Workers = *workers
@@ -377,10 +380,27 @@ func nativeReplay(root string, ps propSpec, v *violation, replayPath string) str
 	if h == nil {
 		return "no-spec"
 	}
-	return nativeReplayRaw(root, h.Module, h.Pkg, v.Harness, v.Label, v.Kind, replayPath, 8)
+	loops, repeats := 1, 8
+	if h.Interleave {
+		loops, repeats = 20000, 3
+	}
+	st := nativeReplayLoops(root, h.Module, h.Pkg, v.Harness, v.Label, v.Kind, replayPath, repeats, loops)
+	if h.Interleave {
+		// the native schedule is not controlled: any failure of the harness on
+		// these inputs (another assertion, a panic, a hang) confirms the violation
+		switch st {
+		case "panic", "deadlock", "other-assertion", "reproduced-other-label":
+			return "reproduced"
+		}
+	}
+	return st
 }
 
 func nativeReplayRaw(root, module, pkg, harness, label, kind, replayPath string, repeats int) string {
+	return nativeReplayLoops(root, module, pkg, harness, label, kind, replayPath, repeats, 1)
+}
+
+func nativeReplayLoops(root, module, pkg, harness, label, kind, replayPath string, repeats, loops int) string {
 	ov, err := buildOverlay(root, module)
 	if err != nil {
 		return "overlay-error"
@@ -402,26 +422,48 @@ func nativeReplayRaw(root, module, pkg, harness, label, kind, replayPath string,
 
 import (
 	"fmt"
+	"os"
+	"strconv"
 	"testing"
+	"time"
 
 	"github.com/orda-io/orda/client/pkg/vf"
 )
 
-func TestVFReplay(t *testing.T) {
+func vfOnce() (res string) {
 	defer func() {
 		r := recover()
 		switch x := r.(type) {
 		case nil:
-			fmt.Println("VF-RESULT: passed")
+			res = "passed"
 		case vf.Failed:
-			fmt.Println("VF-RESULT: failed " + x.Label)
+			res = "failed " + x.Label
 		case vf.Vacuous:
-			fmt.Println("VF-RESULT: vacuous " + x.Why)
+			res = "vacuous " + x.Why
 		default:
-			fmt.Printf("VF-RESULT: panic %%v\n", r)
+			res = fmt.Sprintf("panic %%v", r)
 		}
 	}()
+	vf.Reset()
 	%s()
+	return
+}
+
+func TestVFReplay(t *testing.T) {
+	// schedule-dependent counterexamples are retried (the native scheduler is not controlled)
+	loops, _ := strconv.Atoi(os.Getenv("VF_LOOPS"))
+	if loops < 1 {
+		loops = 1
+	}
+	start := time.Now()
+	res := "passed"
+	for i := 0; i < loops && time.Since(start) < 15*time.Second; i++ {
+		res = vfOnce()
+		if res != "passed" {
+			break
+		}
+	}
+	fmt.Println("VF-RESULT: " + res)
 }
 `, pkgName, harness)
 	testFile := filepath.Join(scratch, "zz_vf_replay_test.go")
@@ -432,7 +474,7 @@ func TestVFReplay(t *testing.T) {
 	os.WriteFile(ovJSON, b, 0o644)
 
 	bin := filepath.Join(scratch, "replay.test")
-	env := append(os.Environ(), "GOFLAGS=-mod=mod", "GOPROXY=off", "GOSUMDB=off", "GOTOOLCHAIN=local", "VF_REPLAY="+replayPath)
+	env := append(os.Environ(), "GOFLAGS=-mod=mod", "GOPROXY=off", "GOSUMDB=off", "GOTOOLCHAIN=local", "VF_REPLAY="+replayPath, fmt.Sprintf("VF_LOOPS=%d", loops))
 	build := osexec.Command("go", "test", "-c", "-vet=off", "-overlay", ovJSON, "-o", bin, pkg)
 	build.Dir = filepath.Join(repoRoot, module)
 	build.Env = env
